@@ -22,7 +22,14 @@ META = {
             "executed on real publishers/subscribers; the recorded trace must be explained by the specification: "
             "a loan never returns a chunk that still has a holder in the model (LoanFromFree), the bytes of every held "
             "sample/loan equal their canary after every call, and the probe gets exactly MaxLoan-|loans| loans and "
-            "then ExceedsMaxLoans, never OutOfMemory. The same statement for request and response payloads is decided by "
+            "then ExceedsMaxLoans, never OutOfMemory. Strengthened: connection faults with degradation handlers (a failing "
+            "connection to one subscriber must not let the publisher reclaim chunks other subscribers hold), the "
+            "expired-connection buffer (sizes 1..3: a connection with held samples is never sacrificed; held samples are "
+            "checked for being mapped before they are read), the split form of send explaining calls from inside the "
+            "unable-to-deliver handler together with the invariant CqFits instantiated with the completion queue capacity "
+            "MEASURED on the running code, exact-worst-case witnesses with over-aligned payloads (16/64/256), and "
+            "publisher || subscriber executions under the deterministic scheduler validated through their linearizations. "
+            "The same statement for request and response payloads is decided by "
             "the request-response part (checks/reqres_parts.c02_reqres: chunk layer of ReqRes.tla, canary and probe "
             "observables on clients/servers), plugged in through EXTRA_PARTS.",
     "note": "Request/response payloads are covered by the plugged-in request-response part (skipped with a note if "
